@@ -658,13 +658,13 @@ func c09(w *core.World, r *core.Report) {
 	if pop := w.Func("pkg/tree", "sharedEntryAttributes", "populateChoiceCaseResolvers"); pop != nil {
 		n := 0
 		for _, sv := range core.CallsTo(pop, "tree.choiceCasesResolver.SetValue") {
-			a := core.CallArgs(sv)
-			if len(a) != 3 {
+			marker := storedInputs(sv, "tree.choicesCaseElement.new")
+			if len(marker) == 0 {
 				continue
 			}
 			n++
 			ok := false
-			sl := core.DataSlice(pop, []ssa.Value{a[2]})
+			sl := core.DataSlice(pop, marker)
 			for v := range sl.Values {
 				c, isCall := v.(*ssa.Call)
 				if !isCall || !core.CalleeIs(c, "tree.TreeCacheClient.GetBranchesHighesPrecedence") {
